@@ -551,7 +551,9 @@ func (r *Run) sendCheck(fr *Frame, st *State, instr ssa.Instruction, ch, x ssa.V
 	st.trace = append(st.trace, "send:"+site)
 }
 
-func (r *Run) recvEvent(fr *Frame, st *State, x *ssa.UnOp, ch, rv *Val) {}
+func (r *Run) recvEvent(fr *Frame, st *State, x *ssa.UnOp, ch, rv *Val) {
+	r.ghostEvent(fr, st, "recv", chanFieldName(x.X), "")
+}
 
 func (r *Run) goEvent(fr *Frame, st *State, x *ssa.Go) {
 	name := r.eng.calleeName(&x.Call)
@@ -583,6 +585,7 @@ func (r *Run) selectInstr(fr *Frame, st *State, x *ssa.Select) *Val {
 		if s.Dir == types.RecvOnly {
 			et := s.Chan.Type().Underlying().(*types.Chan).Elem()
 			elems = append(elems, r.freshVal(st, et, "select.recv"))
+			r.ghostEvent(fr, st, "recv", chanFieldName(s.Chan), app("=", idx, fmt.Sprint(k)))
 		} else {
 			// a send that may be chosen: its obligation holds under idx = k
 			sst := st.clone()
@@ -866,4 +869,32 @@ func argVars(args []*Val) map[string]*Val {
 		m[fmt.Sprintf("$%d", i)] = a
 	}
 	return m
+}
+
+// ghostEvent runs the ghost code the enclosing function's contract attaches to an event. cond, if not
+// empty, makes the update conditional (select: the case was chosen).
+func (r *Run) ghostEvent(fr *Frame, st *State, on, target, cond string) {
+	ct := r.contractFor(fr.fn)
+	if ct == nil {
+		return
+	}
+	for _, g := range ct.Ghosts {
+		if g.On != on || g.Target != target {
+			continue
+		}
+		env := &Env{r: r, st: st, old: r.entry, fr: fr, vars: r.varsFor(fr), ctx: "ghost update"}
+		val := r.evalTerm(env, g.Expr)
+		cur, ok := r.ghostVar(st, g.Ghost)
+		if !ok {
+			r.toolErr("ghost update of undeclared ghost %q", g.Ghost)
+			continue
+		}
+		r.havocGhost(st, g.Ghost)
+		nw, _ := r.ghostVar(st, g.Ghost)
+		if cond != "" {
+			st.assume(app("=", nw, app("ite", cond, val, cur)))
+		} else {
+			st.assume(app("=", nw, val))
+		}
+	}
 }
